@@ -37,7 +37,7 @@ def param_valid(spec, value_text):
     if value_text.strip() != value_text or value_text.startswith("+") or value_text.startswith("-"):
         return False
     if spec == "nonzero":
-        return v > 0
+        return 0 < v < (1 << 31)
     return v in spec
 
 
@@ -144,11 +144,11 @@ def gen_globals(rng, defines=None):
         r = rng.random()
         if r < 0.8:
             n = rng.choice([1, 2, 3, 5, 10, 11, 30])
-            args += rng.choice([["-t", str(n)], ["-t%d" % n], ["--iters=%d" % n]])
+            args += rng.choice([[("-t", str(n))], ["-t%d" % n], ["--iters=%d" % n]])
             model["iters"] = n
         else:
             bad = rng.choice(["0", "-1", "x", "1.5", ""])
-            args += [rng.choice(["--iters=" + bad, "-t" + bad if bad else "--iters="])]
+            args += [rng.choice(["--iters=" + bad, "-t" + bad if bad else "--iters="])]      # never a bare `-t`
             model["iters_ok"] = False
     if rng.random() < 0.2:
         v = rng.choice(["on", "off", "on", "off", "yes", "", "ON"])
@@ -170,7 +170,7 @@ def gen_globals(rng, defines=None):
     # here they widen the option space for C03/C18)
     if rng.random() < 0.25:
         for _ in range(rng.randint(1, 2)):
-            name = rng.choice(["x", "k0", "k1", "lbl0", "foo", "val", "a.b", "K1", ""])
+            name = rng.choice(["x", "k0", "k1", "lbl0", "foo", "val", "val.b", "K1", "start", "_"])
             val = rng.choice(["", "", "=5", "=0x10", "=-3", "=true", "=false", "=", "=-", "=abc", "=1=2", "=0b101", "=%11", "=$ff"])
             args.append(rng.choice(["-d", "--define="]) + name + val)
             model["defines"].append((name, val))
@@ -189,7 +189,11 @@ def gen_argv(rng, inputs, max_groups=4, validity=None, with_help=True):
         groups.append(m)
         per_group_args.append(a)
     for a in gargs:
-        per_group_args[rng.randrange(ngroups)].append(a)
+        tgt = per_group_args[rng.randrange(ngroups)]
+        if isinstance(a, tuple):
+            tgt.extend(a)          # option with a detached value stays together
+        else:
+            tgt.append(a)
     in_group = 0 if rng.random() < 0.8 else rng.randrange(ngroups)
     for name in inputs:
         pos = rng.randint(0, len(per_group_args[in_group]))
